@@ -1204,6 +1204,24 @@ void process_option_line(const std::string &config_line, const char *filename,
 //-----------------------------------------------------------------------------
 bool load_option_file(const char *filename, int compat_level)
 {
+   // a file that (indirectly) includes itself would recurse until the stack overflows
+   static int    nesting_depth     = 0;
+   constexpr int max_nesting_depth = 16;
+
+   if (nesting_depth >= max_nesting_depth)
+   {
+      fprintf(stderr, "%s: config files are nested more than %d levels deep (include cycle?)\n",
+              filename, max_nesting_depth);
+      log_flush(true);
+      exit(EX_CONFIG);
+   }
+   struct nesting_guard
+   {
+      nesting_guard() { ++nesting_depth; }
+      ~nesting_guard() { --nesting_depth; }
+   }
+   guard;
+
    cpd.line_number = 0;
 
 #ifdef WIN32
